@@ -991,6 +991,7 @@ func (db *DB) reWriteData(pendingMergeEntries []*Entry) error {
 
 	dataFile, err := NewDataFile(db.getDataPath(db.MaxFileID+1), db.opt.SegmentSize, db.opt.RWMode)
 	if err != nil {
+		tx.Rollback()
 		db.isMerging = false
 		return err
 	}
@@ -1006,7 +1007,11 @@ func (db *DB) reWriteData(pendingMergeEntries []*Entry) error {
 			return err
 		}
 	}
-	tx.Commit()
+	if err := tx.Commit(); err != nil {
+		tx.Rollback()
+		db.isMerging = false
+		return err
+	}
 	return nil
 }
 
